@@ -135,7 +135,38 @@ class _IterOnly:
         return iter(self._items)
 
 
+class _Duck:
+    """everything a list offers to read it (len, iteration, indexing, count, index), but neither a list nor a
+    registered Sequence"""
+
+    def __init__(self, items):
+        self._items = list(items)
+
+    def __len__(self):
+        return len(self._items)
+
+    def __iter__(self):
+        return iter(self._items)
+
+    def __getitem__(self, i):
+        return self._items[i]
+
+    def count(self, x):
+        return self._items.count(x)
+
+    def index(self, x):
+        return self._items.index(x)
+
+
 class _ListSub(list):
+    pass
+
+
+class _IntSub(int):
+    pass
+
+
+class _FloatSub(float):
     pass
 
 
@@ -224,6 +255,8 @@ def _respellings():
                                                        _numseq(v)))
     add("numseq:sequence-class", lambda v, c: _Seq(_numseq(v)))
     add("numseq:iterable-class", lambda v, c: _IterOnly(_numseq(v)))
+    add("numseq:duck-class", lambda v, c: _Duck(_numseq(v)))
+    add("numseq:int-subclasses", lambda v, c: [_IntSub(x) for x in _intseq(v)])
     add("numseq:dict-keys", lambda v, c: dict.fromkeys(_numseq(v)).keys())
     add("numseq:floats", lambda v, c: [float(x) for x in _intseq(v)])
     add("numseq:ints", lambda v, c: _intseq(v) if any(isinstance(x, float) for x in v) else _need(False))
@@ -266,6 +299,8 @@ def _respellings():
     add("num:list-1", lambda v, c: [_num(v)])
     add("num:tuple-1", lambda v, c: (_num(v),))
     add("num:index-object", lambda v, c: _Indexable(_num(v)))
+    add("num:int-subclass", lambda v, c: _IntSub(_int(v)))
+    add("num:float-subclass", lambda v, c: _FloatSub(_num(v)))
     # --- text (names, types, units, labels, column names, link types given as text)
     add("str:np-str", lambda v, c: np.str_(_str(v)))
     add("str:subclass", lambda v, c: _StrSub(_str(v)))
@@ -325,6 +360,7 @@ def _respellings():
     add("strseq:set", lambda v, c: set(_strseq(v)))
     add("strseq:sequence-class", lambda v, c: _Seq(_strseq(v)))
     add("strseq:iterable-class", lambda v, c: _IterOnly(_strseq(v)))
+    add("strseq:duck-class", lambda v, c: _Duck(_strseq(v)))
     add("strseq:joined", lambda v, c: ",".join(_strseq(v)))
     add("strseq:nested", lambda v, c: [_strseq(v)])
     add("strseq:ndarray-nx1", lambda v, c: np.array(_strseq(v)).reshape(-1, 1))
@@ -336,6 +372,7 @@ def _respellings():
     add("seq:ndarray-object", lambda v, c: (lambda a, s: (a.__setitem__(slice(None), s), a)[1])(
         np.empty(len(_anyseq(v)), dtype=object), _anyseq(v)))
     add("seq:sequence-class", lambda v, c: _Seq(_anyseq(v)))
+    add("seq:duck-class", lambda v, c: _Duck(_anyseq(v)))
     add("seq:reversed", lambda v, c: list(reversed(_anyseq(v))) if len(v) > 1 else _need(False))
     add("seq:doubled", lambda v, c: _anyseq(v) + _anyseq(v))
     add("seq:first-only", lambda v, c: _anyseq(v)[:1] if len(v) > 1 else _need(False))
